@@ -187,6 +187,14 @@ Drop(e) ==
   /\ UNCHANGED <<alg, undef>>
   /\ obs' = [call |-> "drop", obj |-> e]
 
+(* The environment: the caller goes on using ITS script object after handing it to a set-up (edits the state and the     *)
+(* requested times in place, puts another system into it).  The engine works on its own copy, so nothing the library holds *)
+(* changes: what an observer reads afterwards (number of records, time) is what it would have read before.                 *)
+CallerEdits(e) ==
+  /\ ~undef /\ has[e] /\ Live(e)
+  /\ UNCHANGED <<alg, unf, has, undef>>
+  /\ obs' = [call |-> "caller_edits", obj |-> e, ns |-> Len(alg[Own(e)].recT), t |-> alg[Own(e)].t]
+
 (* Sharing = "global" only: a call that dereferences a deleted simulation.   *)
 Undefined(e) ==
   /\ Sharing = "global" /\ ~undef /\ has[e] /\ ~Live(e)
